@@ -74,6 +74,12 @@ type Query {
 _schema_cache = {}
 
 
+def schema_k2() -> GraphQLSchema:
+    if "k2" not in _schema_cache:
+        _schema_cache["k2"] = build_schema(SCHEMA_K2)
+    return _schema_cache["k2"]
+
+
 def schema_k() -> GraphQLSchema:
     if "k" not in _schema_cache:
         _schema_cache["k"] = build_schema(SCHEMA_K)
@@ -90,6 +96,7 @@ FRAGMENTS = {
     "FU": ("U", "fragment FU on U { ... on User { id } ... on Admin { level } }", set()),
     "FAdmin": ("Admin", "fragment FAdmin on Admin { level perms }", set()),
     "FNested": ("User", "fragment FNested on User { ...FUser friend { ...FUser } }", {"FUser"}),
+    "FCamel": ("User", "fragment FCamel on User { firstName HTTPCode blob }", set()),
 }
 
 
@@ -155,6 +162,8 @@ def menu(tname, rich=True):
         for j, (s, tags, frags) in enumerate(SUB[ft][:3] if rich else SUB[ft][:1]):
             items.append(Item(f"{f} {{ {s} }}", {"composite_field", *tags}, frags))
         items.append(Item(f"{f} @include(if: $v) {{ id }}", {"composite_field", "field_directive", "composite_include_var"}, var=True))
+        items.append(Item(f"al1_{f}: {f} {{ id }}", {"composite_field", "alias", "aliased_composite"}))
+        items.append(Item(f"al2_{f}: {f} {{ name kind }}", {"composite_field", "alias", "aliased_composite", "enum"}))
     items.append(Item("__typename", {"explicit_typename"}))
     items.append(Item("tn: __typename", {"explicit_typename", "aliased_typename"}))
     for c in TYPE_CONDS:
@@ -245,3 +254,65 @@ def w_ops():
         text = f"query {name} {{ w {{ {fname}{W_SUBSEL[kind]} }} }}"
         out.append(Op(name, text, text + "\n", {"wrapper", f"wkind:{kind}", f"shape:{shape}"}, False, set(), "w"))
     return out
+
+
+# ------------------------------------------------------------------ second schema family: custom roots, deep nesting,
+# abstract types inside members of abstract types, keyword enum values, mutation results
+SCHEMA_K2 = """
+schema { query: RootQuery mutation: RootMutation }
+enum Status { active in class None }
+interface Entity { id: ID! }
+interface Actor implements Entity { id: ID! displayName: String! }
+type Person implements Entity & Actor { id: ID! displayName: String! status: Status! team: Team manager: Actor reports: [Actor!]! history: [[Status!]]  }
+type Robot implements Entity & Actor { id: ID! displayName: String! model: String owner: Person }
+type Team implements Entity { id: ID! title: String! lead: Actor members: [Member!]! parent: Team tags: [String]! }
+union Member = Person | Robot
+union Thing = Person | Robot | Team
+type Page { items: [Thing]! next: Page total: Int! }
+type RootQuery { me: Person! actor(id: ID!): Actor team(id: ID!): Team things(first: Int = 10): Page! members: [[Member!]!] }
+type RootMutation { rename(id: ID!, to: String!): Actor! disband(id: ID!): Team }
+"""
+K2_OPS = [
+    'query K2Deep { me { team { parent { parent { title lead { id displayName } } } } } }',
+    'query K2Manager { me { manager { id displayName ... on Person { status team { title } } ... on Robot { model owner { displayName } } } } }',
+    'query K2Reports { me { reports { __typename displayName ... on Robot { model } } } }',
+    'query K2History { me { status history } }',
+    'query K2Members { team(id: "t") { members { ... on Person { id status manager { displayName } } ... on Robot { id model } } } }',
+    'query K2MembersTypenameOnly { team(id: "t") { members { __typename } lead { __typename } } }',
+    'query K2Things { things { total items { ... on Team { title members { ... on Person { displayName } } } ... on Person { displayName } } next { total next { total } } } }',
+    'query K2ThingsOneMember { things(first: 1) { items { ... on Robot { model } } } }',
+    'query K2NestedLists { members { ... on Person { displayName } ... on Robot { displayName model } } }',
+    'query K2Actor($id: ID!) { actor(id: $id) { id ... on Person { reports { id ... on Person { reports { id } } } } } }',
+    'query K2Aliases { boss: me { myTeam: team { teamTitle: title leader: lead { name: displayName } } } }',
+    'query K2Directives($v: Boolean!) { me { displayName @include(if: $v) team @skip(if: $v) { title tags } } }',
+    'query K2Tags { team(id: "t") { tags parent { tags } } }',
+    'query K2Frag { me { ...PersonBits manager { ...ActorBits } } }\nfragment PersonBits on Person { id status team { ...TeamBits } }\nfragment TeamBits on Team { title lead { ...ActorBits } }\nfragment ActorBits on Actor { id displayName }',
+    'query K2FragOnUnionMember { team(id: "t") { members { ...RobotBits ... on Person { id } } } }\nfragment RobotBits on Robot { model owner { id } }',
+    'mutation K2Rename($id: ID!, $to: String!) { rename(id: $id, to: $to) { id displayName ... on Person { status } } }',
+    'mutation K2Disband($id: ID!) { disband(id: $id) { id members { __typename } } }',
+    'query K2EnumEverywhere { me { status reports { ... on Person { status history } } } }',
+]
+
+
+def k2_ops():
+    out = []
+    for text in K2_OPS:
+        name = text.split("(")[0].split("{")[0].split()[1]
+        out.append(Op(name, text.split("\n")[0], text + "\n", {"family:K2", f"k2:{name}"}, "$v" in text, set(), "k2"))
+    return out
+
+
+def k2_kwargs(op):
+    """Argument assignments for a K2 operation: canonical values, Boolean directive variables both ways."""
+    from graphql import parse
+    doc = parse(op.doc_text)
+    d = next(x for x in doc.definitions if x.kind == "operation_definition")
+    outs = [{}]
+    for v in d.variable_definitions or ():
+        t = v.type
+        while t.kind != "named_type":
+            t = t.type
+        n = v.variable.name.value
+        vals = {"ID": ["id1"], "String": ["s"], "Boolean": [True, False], "Int": [1]}[t.name.value]
+        outs = [dict(o, **{n: x}) for o in outs for x in vals]
+    return outs
